@@ -1,7 +1,9 @@
 package sim
 
 import (
+	"crypto/sha1"
 	"encoding/json"
+	"fmt"
 	"os"
 	"path/filepath"
 	"strings"
@@ -97,3 +99,77 @@ func readFileOp(raw json.RawMessage) (interface{}, error) {
 }
 
 func init() { Register("readfile", readFileOp) }
+
+// snapshot lists every file and directory under the worker directory except the configured data and log directories
+// (and the read-only static symlink): path -> "d" | "<size>:<sha1>". Used by the path-confinement oracle.
+func snapshotOp(raw json.RawMessage) (interface{}, error) {
+	out := map[string]string{}
+	root := strings.TrimSuffix(DataDir, "/")
+	_ = filepath.Walk(root, func(p string, info os.FileInfo, err error) error {
+		if err != nil {
+			return nil
+		}
+		rel := strings.TrimPrefix(strings.TrimPrefix(p, root), "/")
+		if rel == "" {
+			return nil
+		}
+		top := strings.SplitN(rel, "/", 2)[0]
+		if top == "data" || top == "logs" || top == "static" {
+			if info.IsDir() {
+				return filepath.SkipDir
+			}
+			return nil
+		}
+		if info.IsDir() {
+			out[rel] = "d"
+			return nil
+		}
+		b, rerr := os.ReadFile(p)
+		if rerr != nil {
+			out[rel] = "unreadable"
+			return nil
+		}
+		h := sha1.Sum(b)
+		out[rel] = fmt.Sprintf("%d:%x", len(b), h[:6])
+		return nil
+	})
+	return out, nil
+}
+
+func putFileOp(raw json.RawMessage) (interface{}, error) {
+	var a struct {
+		Rel     string `json:"rel"`
+		Content string `json:"content"`
+	}
+	if err := json.Unmarshal(raw, &a); err != nil {
+		return nil, err
+	}
+	p := filepath.Join(DataDir, a.Rel)
+	if err := os.MkdirAll(filepath.Dir(p), 0755); err != nil {
+		return nil, err
+	}
+	return nil, os.WriteFile(p, []byte(a.Content), 0644)
+}
+
+func init() {
+	Register("snapshot", snapshotOp)
+	Register("putfile", putFileOp)
+}
+
+// rmoutside removes a path below the worker directory that lies outside data/ and logs/ (undo for the confinement check).
+func rmOutsideOp(raw json.RawMessage) (interface{}, error) {
+	var a struct {
+		Rel string `json:"rel"`
+	}
+	if err := json.Unmarshal(raw, &a); err != nil {
+		return nil, err
+	}
+	rel := filepath.Clean(a.Rel)
+	top := strings.SplitN(rel, "/", 2)[0]
+	if rel == "." || strings.HasPrefix(rel, "..") || top == "data" || top == "logs" || top == "static" {
+		return nil, fmt.Errorf("refusing to remove %q", a.Rel)
+	}
+	return nil, os.RemoveAll(filepath.Join(DataDir, rel))
+}
+
+func init() { Register("rmoutside", rmOutsideOp) }
